@@ -758,7 +758,9 @@ fn main() {
     }
 
     let depth = if thorough { 5 } else { 3 };
-    let budget = Duration::from_secs(if thorough { 1200 } else { 40 });
+    // with the signer probes of C10 every host wait costs a signed round trip more
+    let budget = Duration::from_secs(if thorough { if std::env::var("VERIF_PROPERTY").as_deref() == Ok("C10") { 2700 } else { 1500 } } else { 40 });
+    let mut covered_depth = depth;
     let t0 = Instant::now();
     let mut seen: HashSet<String> = HashSet::new();
     let mut frontier: VecDeque<Vec<Ev>> = VecDeque::new();
@@ -810,6 +812,7 @@ fn main() {
             }
             if t0.elapsed() > budget {
                 capped = true;
+                covered_depth = h.len(); // breadth first: every history up to the length of the one being extended has run
                 break 'bfs;
             }
         }
@@ -855,6 +858,7 @@ fn main() {
     res.cov("agent_polls_executed", polls);
     res.cov("max_depth", maxd as u64);
     res.cov("wall_cap_hit", capped);
+    res.cov("min_fully_covered_depth", covered_depth as u64);
     res.cov("exhaustive", !capped);
     res.cov("rule", format!("BFS over histories of host events (protocol 1.0 states, 2.0 enabled flag, per-endpoint rule item in {:?} for wireserver/imds/hostga, rotate = host forgets its latch, host latches a key the guest never had, one-shot faults at status/acquire/attest, no-op poll; {} events) to depth {depth}, plus each of 11 unreadable answer shapes (channel-state field of the document's version missing or unusable, mandatory field missing, not an object) after 8 base histories, one real agent poll per event in lock-step, deduplicated on (host model, agent getters, key directory, kernel policy map); each history replayed from scratch on the real KeyKeeper with a paused clock", rule_vals, alphabet.len()));
     res.assume("distinct rule contents have distinct ids (host contract; replacement is keyed on the id)");
